@@ -93,6 +93,14 @@ impl AsyncHookFn {
 pub struct CowStr { _p: () }
 
 // std::collections::VecDeque methods without a vstd spec (A5)
+// VecDeque::is_empty has no vstd specification (A5)
+pub assume_specification<T, A: core::alloc::Allocator>[VecDeque::<T, A>::is_empty](v: &VecDeque<T, A>) -> (r: bool)
+    ensures r == (v@.len() == 0);
+
+// VecDeque::get has no vstd specification (A5)
+pub assume_specification<T, A: core::alloc::Allocator>[VecDeque::<T, A>::get](v: &VecDeque<T, A>, i: usize) -> (r: Option<&T>)
+    ensures (match r { Some(x) => i < v@.len() && *x == v@[i as int], None => i >= v@.len() });
+
 // reserve / reserve_exact change the capacity only (VecDeque and Vec)
 pub trait VxSeqLike<T>: Sized { spec fn seq(&self) -> Seq<T>; }
 impl<T> VxSeqLike<T> for VecDeque<T> { open spec fn seq(&self) -> Seq<T> { self@ } }
